@@ -207,31 +207,47 @@ func c20Gopacket(b []byte, ref *pkt.Info) (string, string) {
 		return "gopacket-agrees-network-layer-only", ""
 	}
 	off := func(l gopacket.Layer) int { return len(b) - len(l.LayerContents()) - len(l.LayerPayload()) }
-	if l, ok := p.Layer(layers.LayerTypeTCP).(*layers.TCP); ok && l != nil {
+	// gopacket's opinion of the upper layer = the first layer behind the IP header and the extension
+	// headers (NOT any later layer: protocols 4/41/47 carry whole inner packets that gopacket decodes too)
+	var up gopacket.Layer
+	for i, l := range p.Layers() {
+		switch l.LayerType() {
+		case layers.LayerTypeIPv4, layers.LayerTypeIPv6:
+			if i == 0 {
+				continue
+			}
+		case layers.LayerTypeIPv6HopByHop, layers.LayerTypeIPv6Routing, layers.LayerTypeIPv6Destination, layers.LayerTypeIPSecAH:
+			continue
+		}
+		up = l
+		break
+	}
+	switch l := up.(type) {
+	case *layers.TCP:
 		if ref.Proto != pkt.ProtoTCP || off(l) != ref.L4Off || uint16(l.SrcPort) != ref.SrcPort || uint16(l.DstPort) != ref.DstPort ||
 			ref.TCP == nil || l.Seq != ref.TCP.Seq || l.Ack != ref.TCP.Ack || int(l.DataOffset)*4 != ref.TCP.DataOff {
 			return "", fmt.Sprintf("gopacket TCP at %d %d>%d, reference proto=%d at %d %d>%d", off(l), l.SrcPort, l.DstPort, ref.Proto, ref.L4Off, ref.SrcPort, ref.DstPort)
 		}
 		return "gopacket-agrees-tcp", ""
-	}
-	if l, ok := p.Layer(layers.LayerTypeUDP).(*layers.UDP); ok && l != nil {
+	case *layers.UDP:
 		if ref.Proto != pkt.ProtoUDP || off(l) != ref.L4Off || uint16(l.SrcPort) != ref.SrcPort || uint16(l.DstPort) != ref.DstPort {
 			return "", fmt.Sprintf("gopacket UDP at %d %d>%d, reference proto=%d at %d %d>%d", off(l), l.SrcPort, l.DstPort, ref.Proto, ref.L4Off, ref.SrcPort, ref.DstPort)
 		}
 		return "gopacket-agrees-udp", ""
-	}
-	if l, ok := p.Layer(layers.LayerTypeICMPv4).(*layers.ICMPv4); ok && l != nil && ref.Version == 4 {
-		if ref.Proto != pkt.ProtoICMP || off(l) != ref.L4Off || !ref.HasICMP || l.TypeCode.Type() != ref.ICMPType || l.TypeCode.Code() != ref.ICMPCode || l.Id != ref.ICMPID {
+	case *layers.ICMPv4:
+		if ref.Version != 4 || ref.Proto != pkt.ProtoICMP || off(l) != ref.L4Off || !ref.HasICMP || l.TypeCode.Type() != ref.ICMPType || l.TypeCode.Code() != ref.ICMPCode || l.Id != ref.ICMPID {
 			return "", fmt.Sprintf("gopacket ICMPv4 at %d type %d id %d, reference proto=%d at %d type %d id %d", off(l), l.TypeCode.Type(), l.Id, ref.Proto, ref.L4Off, ref.ICMPType, ref.ICMPID)
 		}
 		return "gopacket-agrees-icmp4", ""
-	}
-	if l, ok := p.Layer(layers.LayerTypeICMPv6).(*layers.ICMPv6); ok && l != nil && ref.Version == 6 {
+	case *layers.ICMPv6:
 		// gopacket: contents = 4 bytes, payload = rest
-		if ref.Proto != pkt.ProtoICMPv6 || off(l) != ref.L4Off || !ref.HasICMP || l.TypeCode.Type() != ref.ICMPType || l.TypeCode.Code() != ref.ICMPCode {
+		if ref.Version != 6 || ref.Proto != pkt.ProtoICMPv6 || off(l) != ref.L4Off || !ref.HasICMP || l.TypeCode.Type() != ref.ICMPType || l.TypeCode.Code() != ref.ICMPCode {
 			return "", fmt.Sprintf("gopacket ICMPv6 at %d type %d, reference proto=%d at %d type %d", off(l), l.TypeCode.Type(), ref.Proto, ref.L4Off, ref.ICMPType)
 		}
 		return "gopacket-agrees-icmp6", ""
+	}
+	if ref.Proto == pkt.ProtoTCP || ref.Proto == pkt.ProtoUDP || ref.HasICMP {
+		return "", fmt.Sprintf("reference sees protocol %d at %d, gopacket's upper layer is %v", ref.Proto, ref.L4Off, up)
 	}
 	return "gopacket-other-proto", ""
 }
